@@ -39,6 +39,7 @@ S0 == [side |-> "client", dead |-> FALSE,
        xs |-> <<>>,         \* transactions of the application: [x, tx, st]
        decls |-> <<>>,      \* declares asked by the application: [call, x]
        wantPost |-> <<>>,   \* posts asked by the application, not yet seen on the wire: [m, x]
+       sentPost |-> <<>>,   \* posts whose first frame has been seen: [m, x]
        wantDis |-> <<>>,    \* discharges asked: [x, fail, call]
        disSeen |-> <<>>,    \* discharges seen on the wire: [did, tx, x, call]
        verdicts |-> <<>>]   \* what the coordinator answered: [call, ok]
@@ -103,6 +104,8 @@ L_PFrame(z, r, ln) ==
        IF refuse THEN (IF isLate THEN R([z1 EXCEPT !.late = @ \cup {e.m}, !.lateDids = @ \cup {r.f.did}], 0)
                        ELSE R([z1 EXCEPT !.refused = @ \cup {e.m}, !.refOwed = @ + 1], 0))
        ELSE IF r.f.more \/ c1.bad THEN R(z1, 0)
+       \* an aborted post is no post
+       ELSE IF Get(r.f, "aborted", FALSE) THEN R(z1, 0)
        ELSE IF ~c1.txn THEN R([z1 EXCEPT !.vis = Append(@, e)], 0)
        ELSE IF Active(z, k) THEN R([z1 EXCEPT !.txs[k + 1].posts = Append(@, e)], 0)
        \* the transaction ended between the first and the last frame of the post: nothing is demanded of this delivery
@@ -174,10 +177,15 @@ C_EFrame(z, r, ln) ==
        ELSE LET w == Head(z.wantDis) xi == XIdx(z, w.x) IN
             R([z EXCEPT !.wantDis = Tail(@), !.disSeen = Append(@, [did |-> r.f.did, call |-> w.call])],
               Chk("C18_DischargeWire", xi > 0 /\ r.ctl.tx = z.xs[xi].tx, ln, "txn-id") + Chk("C18_DischargeWire", r.ctl.fail = w.fail, ln, "fail-flag") + Stat("discharge-sent"))
-  ELSE LET wi == {j \in DOMAIN z.wantPost : z.wantPost[j].m = r.pl.m} IN
-       IF wi = {} \/ r.pl.off > 0 THEN R(z, 0)
+  ELSE LET wi == {j \in DOMAIN z.wantPost : z.wantPost[j].m = r.pl.m}
+           si == {j \in DOMAIN z.sentPost : z.sentPost[j].m = r.pl.m} IN
+       \* every further frame of a post that is split is associated with the same transaction explicitly (4.4.2)
+       IF r.pl.off > 0 THEN (IF si = {} THEN R(z, 0)
+                             ELSE LET w == z.sentPost[CHOOSE j \in si : TRUE] xi == XIdx(z, w.x) IN
+                                  R(z, Chk("C18_PostCarriesId", r.f.state.k = "txn" /\ xi > 0 /\ r.f.state.tx = z.xs[xi].tx, ln, "continuation-frame:" \o r.f.state.k)))
+       ELSE IF wi = {} THEN R(z, 0)
        ELSE LET w == z.wantPost[CHOOSE j \in wi : TRUE] xi == XIdx(z, w.x) IN
-            R([z EXCEPT !.wantPost = SelectSeq(@, LAMBDA p : p.m # r.pl.m)],
+            R([z EXCEPT !.wantPost = SelectSeq(@, LAMBDA p : p.m # r.pl.m), !.sentPost = Append(@, w)],
               Chk("C18_PostCarriesId", r.f.state.k = "txn" /\ xi > 0 /\ r.f.state.tx = z.xs[xi].tx, ln, r.f.state.k) + Stat("post-sent"))
 C_PFrame(z, r, ln) ==
   IF ~r.written \/ r.perf # "disposition" THEN R(z, 0) ELSE
